@@ -329,3 +329,8 @@ SPECS["C01"]["harness"].append({"component": "svcq", "args": [], "quick": 200, "
 # is C13's subject, but a leftover exemption is a bypass of C18's quotas and bans: the handler histories of C13 run
 # again as a monitor-only run of C18
 SPECS["C18"]["harness"].append({"component": "hnd", "args": ["--focus", "c13", "--fixes", "all"], "quick": 96, "thorough": 1000, "correspondence": False})
+
+# release-profile runs (no debug assertions, wrapping arithmetic): the codecs, the TALK objects, the limiter
+SPECS["C20"]["harness"].append({"component": "talk", "args": [], "quick": 400, "thorough": 4000, "profile": "release"})
+SPECS["C06"]["harness"].append({"component": "rpcc", "args": [], "quick": 160, "thorough": 2000, "profile": "release"})
+SPECS["C05"]["harness"].append({"component": "pkt", "args": [], "quick": 96, "thorough": 1000, "profile": "release"})
